@@ -1347,7 +1347,7 @@ Expression:
 
 DynamicExpression:
         T_SPAWN NonTypeId {
-	    CALL(@1,@2, expr_identifier($2));
+	    CALL(@2,@2, expr_identifier($2));
 	} '(' ArgList ')' {
 	    CALL(@1,@6, expr_spawn($5));
 	}
@@ -1359,25 +1359,25 @@ DynamicExpression:
 	    CALL(@1,@4, expr_numof());
 	}
         | T_FORALL '(' Id ':' NonTypeId {
-	    CALL(@1,@5, expr_identifier($5));
+	    CALL(@5,@5, expr_identifier($5));
 	    CALL(@1,@5, expr_forall_dynamic_begin($3,$5));
 	} ')'  '(' Expression ')'   {
 	    CALL(@1,@8, expr_forall_dynamic_end($3));
 	}
         | T_EXISTS '(' Id ':' NonTypeId {
-	    CALL(@1,@5, expr_identifier($5));
+	    CALL(@5,@5, expr_identifier($5));
 	    CALL(@1,@5, expr_exists_dynamic_begin($3,$5));
 	} ')' '(' Expression ')'  {
 	    CALL(@1,@8, expr_exists_dynamic_end($3));
 	}
         | T_SUM '(' Id ':' NonTypeId {
-	    CALL(@1,@5, expr_identifier($5));
+	    CALL(@5,@5, expr_identifier($5));
 	    CALL(@1,@5, expr_sum_dynamic_begin($3,$5));
 	} ')' Expression   {
 	    CALL(@1,@8, expr_sum_dynamic_end($3));
 	}
         | T_FOREACH '(' Id ':' NonTypeId {
-	    CALL(@1,@5, expr_identifier($5));
+	    CALL(@5,@5, expr_identifier($5));
 	    CALL(@1,@5, expr_foreach_dynamic_begin($3,$5));
 	} ')' Expression   {
 	    CALL(@1,@8, expr_foreach_dynamic_end($3));
